@@ -1,6 +1,7 @@
 package main
 
 import (
+	"strings"
 	"bytes"
 	"encoding/json"
 	"errors"
@@ -761,11 +762,35 @@ func (d *driver) runIPA(w emitter, pid int, pr *proofProg) {
 			res = f[255]
 		case "f0":
 			res = f[0]
+		case "pfL0", "pfL7", "pfR3", "pfa", "pfswap", "pfL0id", "pfLnext":
+			res = correct // the correct result with a proof that differs from the honest one in a single component
 		default:
 			res = rnd.fr()
 		}
 		vtr := common.NewTranscript(label)
 		ve := ev{"ev": "ipa_verify", "prog": pid, "k": k, "rcls": rc, "result": frReg(&res), "pcls": pr.Point}
+		honest := proof
+		if strings.HasPrefix(rc, "pf") && len(proof.L) == 8 && len(proof.R) == 8 {
+			q := ipa.IPAProof{L: append([]banderwagon.Element(nil), proof.L...), R: append([]banderwagon.Element(nil), proof.R...), A_scalar: proof.A_scalar}
+			switch rc {
+			case "pfL0":
+				q.L[0].Add(&q.L[0], &banderwagon.Generator)
+			case "pfL7":
+				q.L[7].Add(&q.L[7], &banderwagon.Generator)
+			case "pfR3":
+				q.R[3].Add(&q.R[3], &banderwagon.Generator)
+			case "pfa":
+				q.A_scalar.Add(&q.A_scalar, &one)
+			case "pfswap":
+				q.L, q.R = q.R, q.L
+			case "pfL0id":
+				q.L[0].SetIdentity()
+			case "pfLnext":
+				q.L[2], q.L[3] = q.L[3], q.L[2]
+			}
+			proof = q
+			ve["proof"] = ipaJSON(&q)
+		}
 		var ok bool
 		var verr error
 		func() {
@@ -779,6 +804,7 @@ func (d *driver) runIPA(w emitter, pid int, pr *proofProg) {
 		ve["ok"] = ok
 		ve["err"] = verr != nil
 		w.emit(ve)
+		proof = honest
 	}
 }
 
